@@ -471,6 +471,11 @@ pub(crate) fn run(
                         if state.get(0) > slot1 {
                             state.save(0, slot1);
                         }
+                        // Likewise, keep out inside a look-behind can move the start to before the
+                        // position where the search started. Cap the start to >= pos.
+                        if state.get(0) < pos && pos <= slot1 {
+                            state.save(0, pos);
+                        }
                     }
                     return Ok(Some(state.saves));
                 }
